@@ -144,7 +144,8 @@ def make(e, progs, job):
         model, preds, okk, ws = out
         e.cover('train-returned-model')
         st['model'] = model
-        e.check(all(-32768 <= w <= 32767 for w in ws), 'weights within the signed 16-bit range')
+        st['range_violation'] = not all(-32768 <= w <= 32767 for w in ws)
+        e.check(not st['range_violation'], 'weights within the signed 16-bit range')
         if len(seq_values(hlib.fval(model.f[0].v, 'tag_models'))):
             e.cover('tag-models-present')
         e.check(okk, 'returned model is usable')
@@ -206,7 +207,7 @@ def make(e, progs, job):
         corpus = [{'kind': k, 'text': t} for k, t in CORPORA[job['corpus']]]
         text = st['s'].py(m) if 's' in st else 'ab'
         tagdict = [{'kind': 'tokenized', 'text': 'zz/D1/D2 ab/N'}] if job.get('tagdict') else []
-        return {'property': ID, 'job': job, 'cfg': job['cfg'], 'dict': words, 'max_len': max_len, 'corpus': corpus, 'text': text,
+        return {'property': ID, 'job': job, 'cfg': job['cfg'], 'dict': words, 'max_len': max_len, 'corpus': corpus, 'text': text, 'range_violation': bool(st.get('range_violation')),
                 'ops': [{'op': 'train', 'id': 'm', 'cfg': job['cfg'], 'dict': words, 'max_len': max_len, 'corpus': corpus, 'tag_dict': tagdict, 'solver': '1'}]}
 
     def sample():
@@ -278,4 +279,30 @@ def confirm(sc, replay):
                 yield from ws(v)
     if any(not -32768 <= x <= 32767 for x in ws(mj)):
         bad.append('weight outside the signed 16-bit range')
+    if not bad and sc.get('range_violation'):
+        # the engine showed that SOME learner coefficients give out-of-range weights; the real learner's coefficients on the witness corpus need not be such.
+        # Native confirmation therefore trains the real liblinear on a few corpora built to make one feature dominate (rare decisive feature introduced last / first).
+        for probe in range_probes(sc.get('cfg') or sc['job'].get('cfg')):
+            rr = replay.run([dict(probe, op='train', id='rp', solver='L2RegularizedL2LossSVCDual')])[0]
+            if 'panic' in rr:
+                bad.append('Trainer::train panicked on a range probe: ' + str(rr['panic'])); break
+            out = [x for x in ws(rr.get('model') or {}) if not -32768 <= x <= 32767]
+            if out:
+                bad.append('weight outside the signed 16-bit range on probe corpus %r (cfg %r): %r' % ([c['text'] for c in probe['corpus']][:4], probe['cfg'], out[:3])); break
     return bool(bad), {'native_violations': bad[:5]}
+
+
+def range_probes(cfg):
+    """corpora on which the real learner gives one late (or early) feature a dominating coefficient"""
+    def tok(lines):
+        return [{'kind': 'tokenized', 'text': t} for t in lines]
+    ps = []
+    balanced = ['a a', 'aa'] * 6
+    ps.append({'cfg': [1, 1, 0, 0], 'dict': [], 'max_len': 1, 'corpus': tok(balanced + ['a z'] * 6), 'tag_dict': []})
+    ps.append({'cfg': [1, 1, 0, 0], 'dict': [], 'max_len': 1, 'corpus': tok(['a z'] * 6 + balanced), 'tag_dict': []})
+    ps.append({'cfg': [0, 0, 0, 0], 'dict': ['ab', 'xyz'], 'max_len': 3, 'corpus': tok(['c a b c', 'cabc'] * 4 + ['xyz'] * 4), 'tag_dict': []})
+    ps.append({'cfg': [0, 0, 0, 0], 'dict': ['ab', 'xyz'], 'max_len': 3, 'corpus': tok(['xyz'] * 4 + ['c a b c', 'cabc'] * 4), 'tag_dict': []})
+    if cfg:
+        ps.append({'cfg': list(cfg), 'dict': ['ab', 'xyz'], 'max_len': 3, 'corpus': tok(['c a b c', 'cabc'] * 4 + ['xyz', 'a z'] * 4), 'tag_dict': []})
+        ps.append({'cfg': list(cfg), 'dict': [], 'max_len': 1, 'corpus': tok(balanced + ['a z'] * 6), 'tag_dict': []})
+    return ps
